@@ -1,6 +1,6 @@
 (* C02 refutations (witnesses closed by vm_compute). *)
 From Coq Require Import ZArith List Bool.
-From OG Require Import C02.Model.
+From OG Require Import C02.Model C02.FileCursor.
 Import ListNotations.
 Open Scope Z_scope.
 
@@ -46,4 +46,20 @@ Proof. exists h_ms, 0. vm_compute. reflexivity. Qed.
 Print Assumptions C02_mergeself_current_refuted.
 Example C02_mergeself_repaired_witness_ok :
   Corr_eq (read_series (run2 false 0 h_ms) 0) (sel 0 (lww_table (writes_of h_ms))) = true.
+Proof. vm_compute. reflexivity. Qed.
+
+(* Today's DESCENDING walk of the file-cursor path (`fc_rows true true`: the first ordered file visited - the newest - is
+   flagged as the last one and takes all memtable / out-of-order rows; the older files are handed out as they are) does
+   NOT satisfy the property: a point overwritten by a late write while its older version sits in an older ordered file
+   is counted twice. Finding C02-desc-filecursor-lastfile. *)
+Definition h_fc : list op :=
+  [ Write [r 0 2 [(0,1)]; r 0 3 [(0,1)]]; Flush false 1 1001; Write [r 0 6 [(0,1)]]; Flush false 2 1002; Write [r 0 2 [(0,7)]] ].
+Theorem C02_desc_filecursor_current_refuted :
+  exists h s tmin tmax f, ops_allowed h = true /\
+    fc_count true true (run false h) s tmin tmax f
+    <> Z.of_nat (length (shape tmin tmax [f] true (sel s (lww_table (writes_of h))))).
+Proof. exists h_fc, 0, 0, 9, 0. split; [vm_compute; reflexivity | vm_compute; discriminate]. Qed.
+Print Assumptions C02_desc_filecursor_current_refuted.
+Example C02_desc_filecursor_repaired_witness_ok :
+  fc_count false true (run false h_fc) 0 0 9 0 = Z.of_nat (length (shape 0 9 [0] true (sel 0 (lww_table (writes_of h_fc))))).
 Proof. vm_compute. reflexivity. Qed.
